@@ -250,6 +250,13 @@ def run(ck):
                   "returns schema(value) when a schema exists, else the value" if ok
                   else '; '.join(why), fi, rets[0].ast if rets else fi.node)
 
+    R6 = ck.rule('R17.6', "the caller learns the verdict: True for an accepted put and False for a rejected one travel "
+                 "unchanged through every event() override between the handler and the caller (the persistence "
+                 "add-on saves the state and still returns the handler's result)", 'M0', 1)
+    with ck.section('R17.6'):
+        from rules.shared import event_result_passed_on
+        event_result_passed_on(ck, R6, 'blocklib.sblocks2:Input')
+        event_result_passed_on(ck, R6, 'blocklib.sblocks2:InputExp')
     with ck.section('R17.2'):
         # ------------------------------------------------------------ R17.2 (Input)
         # layout-independent decision for the put handler: abstract run with a validator that accepts
